@@ -620,7 +620,9 @@ def check_case(ctx, case):
 
 
 def _motion(tp):
-    return {"quat": list(G.draw_quat(tp)), "shift": list(G.draw_vec(tp, 50)),
+    # translations of any magnitude a double still resolves to 1e-7 A
+    mag = tp.pick([50, 50, 50, 1e3, 1e5, 1e7, 1e8])
+    return {"quat": list(G.draw_quat(tp)), "shift": list(G.draw_vec(tp, mag)),
             "mirror": list(G.draw_unit(tp))}
 
 
